@@ -249,12 +249,12 @@ PROPS["C20"] = {
     "kind": "console", "test": "TestVerifC20", "level": "exploration",
     "tiers": tiers(30000, 8, 500000, 16),
     "rule": "rapid-generated console sessions fed to the real Terminal (NewTerminal / ReadLine, separate reader and writer): 1-6 statements of 1-10 tokens each ending in ';', with single- and double-quoted literals containing semicolons, the other quote character, spaces, multi-byte runes, comment openers; "
-            "line breaks (CR, LF CR, CR LF, with trailing spaces, empty lines) only at token boundaries, several statements per line or one over many lines; the byte stream is delivered bytewise (typed), in one piece (pasted), or in generated chunk sizes 1-40 that split multi-byte runes and escape sequences; "
+            "line breaks (CR, LF CR, CR LF, with trailing spaces, empty lines) at token boundaries and Enter pressed inside a literal (which the console turns into a space, also right after an in-literal semicolon), several statements per line or one over many lines; the byte stream is delivered bytewise (typed), in one piece (pasted), or in generated chunk sizes 1-40 that split multi-byte runes and escape sequences; "
             "1 in 6 sessions is wrapped in bracketed-paste markers. Oracle: the statements returned by successive ReadLine calls, concatenated, are exactly the entered statements, once each and in order, equal after collapsing white space outside quotes (quoted text byte for byte). "
             "Non-trivial: a literal containing ';' and a statement that spans two lines or shares its line; distinct by case JSON.",
     "technique": "property-based testing (rapid) of the terminal line discipline with a by-construction oracle (in-package main)",
     "level_text": "Random search over statement lists, layouts and read chunkings. Search, not proof.",
-    "level_note": "Line breaks inside literals are outside the property (the console turns a break into a space by design); no backslashes in literals; inputs stay below the terminal's 4096-rune line limit. ErrPasteIndicator is treated as 'line data returned' as x/term documents.",
+    "level_note": "A line break typed inside a literal becomes a space (the console's documented line joining), the oracle expects exactly that; no backslashes in literals; inputs stay below the terminal's 4096-rune line limit. ErrPasteIndicator is treated as 'line data returned' as x/term documents.",
 }
 
 PROPS["C13"] = {
